@@ -3,6 +3,7 @@ NEXT Next
 CONSTANTS
   LeafChoice = "small"
   Steps = 0
+  EmitScripts = FALSE
   Thin = TRUE
 INVARIANT StepsAllowed
 POSTCONDITION Count
